@@ -394,7 +394,30 @@ func matchJSONSchema(_ Context, doc bsonkit.Doc, name, _ string, v interface{}) 
 	return nil
 }
 
-func matchAll(_ Context, doc bsonkit.Doc, name, path string, v interface{}) error {
+func matchAll(ctx Context, doc bsonkit.Doc, name, path string, v interface{}) error {
+	// match against the single values found at the path
+	err := matchAllValues(doc, name, path, v)
+	if err != ErrNotMatched {
+		return err
+	}
+
+	// the values may also be spread over several arrays reached through the
+	// path: $all is the conjunction of the equalities of its values
+	array, ok := v.(bson.A)
+	if !ok || len(array) == 0 {
+		return ErrNotMatched
+	}
+	for _, item := range array {
+		err = matchComp(ctx, doc, "$eq", path, item)
+		if err != nil {
+			return err
+		}
+	}
+
+	return nil
+}
+
+func matchAllValues(doc bsonkit.Doc, name, path string, v interface{}) error {
 	return matchUnwind(doc, path, false, true, func(field interface{}) error {
 		// get array
 		array, ok := v.(bson.A)
